@@ -90,6 +90,10 @@ def alphabet(keys):
     ops.append(("ior", "dict", ((k0, 0), (BOGUS, 1))))
     for how in ("method", "copy.copy", "copy.deepcopy", "ctor"):
         ops.append(("copy", how))
+    # the library's copy-with-overrides idiom: T(existing, key=value)
+    for k in ks:
+        ops.append(("copy-override", ((k, 1),)))
+    ops.append(("copy-override", ((k0, 0), (BOGUS, 1))))
     for proto in (0, 2, 5):
         ops.append(("pickle", proto))
     for k in keys:
@@ -109,6 +113,9 @@ def constructors(keys):
             out.append(("ctor", form, ((k, 0),)))
     out.append(("ctor", "dict", ((keys[0], 1), (BOGUS, 0))))
     out.append(("ctor", "dict+kwargs", ((keys[0], 1), (BOGUS, 0))))
+    out.append(("ctor", "fixeddict+kwargs", ((keys[0], 1), (BOGUS, 0))))
+    out.append(("ctor", "fixeddict+kwargs", ((keys[0], 1), (keys[-1], 0))))
+    out.append(("ctor", "pairs+kwargs", ((keys[0], 1), (BOGUS, 0))))
     return out
 
 
@@ -126,6 +133,12 @@ def _mk_arg(T, form, items, vals):
         return (o,), {}
     if form == "dict+kwargs":
         return (dict(items[:1]),), dict(items[1:])
+    if form == "pairs+kwargs":
+        return (list(items[:1]),), dict(items[1:])
+    if form == "fixeddict+kwargs":
+        o = T.__new__(T)
+        dict.update(o, dict(items[:1]))
+        return (o,), dict(items[1:])
     raise ValueError(form)
 
 
@@ -157,6 +170,9 @@ def apply_op(T, vals, obj, op):
                 new = copy.deepcopy(obj)
             else:
                 new = T(obj)
+            return new, None, obj
+        elif kind == "copy-override":
+            new = T(obj, **{k: vals[vi] for k, vi in op[1]})
             return new, None, obj
         elif kind == "pickle":
             new = pickle.loads(pickle.dumps(obj, op[1]))
@@ -205,6 +221,12 @@ def model_op(declared, vals, contents, op):
         c.setdefault(op[1], vals[op[2]])
         return [(c, None)]
     if kind in ("copy", "pickle"):
+        return [(c, None)]
+    if kind == "copy-override":
+        if any(k not in declared for k, _ in op[1]):
+            return [(c, "keyerror")]
+        for k, vi in op[1]:
+            c[k] = vals[vi]
         return [(c, None)]
     if kind in ("del", "pop"):
         if op[1] in c:
@@ -264,11 +286,13 @@ def run_history(tname, hist):
                 # copy / pickle: a new, equal object of the same type; original untouched
                 if new is orig:
                     problems.append("step %d %r returned the same object" % (step, op))
-                if dict(orig) != matched:
+                if dict(orig) != (contents if op[0] == "copy-override" else matched):
                     problems.append("step %d %r modified the original" % (step, op))
-                if canon(new) != canon(orig):
+                if op[0] == "copy-override":
+                    pass
+                elif canon(new) != canon(orig):
                     problems.append("step %d %r: result %r differs from original %r" % (step, op, canon(new), canon(orig)))
-                if not (new == orig):
+                if op[0] != "copy-override" and not (new == orig):
                     problems.append("step %d %r: result != original" % (step, op))
             obj, contents = new, matched
         if type(obj) is not T:
@@ -345,6 +369,114 @@ def bfs(tname, t, max_depth=12):
     return t
 
 
+# ----------------------------------------------------------------------------
+# Reference cycles through fixeddicts (the validator's State <-> owner callback is one)
+# ----------------------------------------------------------------------------
+
+
+class Owner(object):
+    """An object holding a fixeddict which holds a bound method of the object."""
+
+    def __init__(self):
+        self.d = None
+
+    def callback(self, *a):
+        return a
+
+
+def shape(x, memo=None):
+    """Structure of an object graph with identities replaced by first-visit numbers."""
+    if memo is None:
+        memo = {}
+    if isinstance(x, (dict, list, Owner)) or hasattr(x, "__self__"):
+        if id(x) in memo:
+            return ("ref", memo[id(x)])
+        memo[id(x)] = len(memo)
+        if isinstance(x, dict):
+            return (type(x).__name__, tuple((repr(k), shape(v, memo)) for k, v in sorted(x.items(), key=lambda kv: repr(kv[0]))))
+        if isinstance(x, list):
+            return ("list", tuple(shape(v, memo) for v in x))
+        if isinstance(x, Owner):
+            return ("Owner", shape(x.d, memo))
+        return ("method", x.__func__.__name__, shape(x.__self__, memo))
+    return (type(x).__name__, repr(x))
+
+
+CYCLE_SHAPES = ["self", "self-two-keys", "via-list", "via-dict", "via-owner-callback", "mutual-same-type", "mutual-other-type", "cycle-below-root"]
+CYCLE_OPS = [("pickle", p) for p in range(0, 6)] + [("deepcopy",)]
+
+
+def build_cycle(tname, kind):
+    T, keys, vals = type_entry(tname)
+    k0, k1 = keys[0], keys[-1]
+    d = T()
+    d[k1] = vals[0]
+    if kind == "self":
+        d[k0] = d
+    elif kind == "self-two-keys":
+        d[k0] = d
+        d[k1] = d
+    elif kind == "via-list":
+        d[k0] = [vals[0], d]
+    elif kind == "via-dict":
+        d[k0] = {"x": d}
+    elif kind == "via-owner-callback":
+        o = Owner()
+        o.d = d
+        d[k0] = o.callback
+    elif kind == "mutual-same-type":
+        e = T()
+        e[k0] = d
+        d[k0] = e
+    elif kind == "mutual-other-type":
+        other = "VideoParameters" if tname != "VideoParameters" else "State"
+        T2, keys2, _ = type_entry(other)
+        e = T2()
+        e[keys2[0]] = d
+        d[k0] = e
+    elif kind == "cycle-below-root":
+        e = T()
+        e[k0] = e
+        d[k0] = [e, e]
+    else:
+        raise ValueError(kind)
+    return d
+
+
+def check_cycle(tname, kind, op):
+    d = build_cycle(tname, kind)
+    want = shape(d)
+    try:
+        if op[0] == "pickle":
+            new = pickle.loads(pickle.dumps(d, op[1]))
+        else:
+            new = copy.deepcopy(d)
+    except BaseException as e:  # noqa
+        return ["%s of a %s holding a reference cycle (%s) raised %s" % (op, tname, kind, type(e).__name__)]
+    problems = []
+    if type(new) is not type(d):
+        problems.append("%s of cyclic %s (%s): type %s" % (op, tname, kind, type(new).__name__))
+    if new is d:
+        problems.append("%s of cyclic %s (%s) returned the same object" % (op, tname, kind))
+    got = shape(new)
+    if got != want:
+        problems.append("%s of cyclic %s (%s): structure %r, expected %r" % (op, tname, kind, got, want))
+    if shape(d) != want:
+        problems.append("%s of cyclic %s (%s) modified the original" % (op, tname, kind))
+    return problems
+
+
+def run_cycles(total):
+    for tname, _T, _k, _v in get_types():
+        for kind in CYCLE_SHAPES:
+            for op in CYCLE_OPS:
+                total.count("cycle_cases")
+                pr = check_cycle(tname, kind, list(op))
+                total.outcome("cycles", "ok" if not pr else "VIOLATION")
+                if pr:
+                    total.violation(pr[0], {"cycle": [tname, kind, list(op)]})
+
+
 def run(ctx):
     depth = 3 if ctx.quick else 4
     types = get_types()
@@ -357,6 +489,7 @@ def run(ctx):
             shards.append((tname, [c], depth))
     res = pool.map_shards(_shard, shards)
     total.merge(res)
+    run_cycles(total)
     n_alpha = {t[0]: len(alphabet(type_entry(t[0])[1])) for t in types}
     total.sample("history", {"type": "State", "history": [("ctor", "empty", ()), ("ior", "dict", ((BOGUS, 1),))]})
     total.sample("history", {"type": "ParseInfo", "history": [("ctor", "kwargs", (("parse_code", 0),)), ("update", "pairs", (("parse_code", 0), (BOGUS, 1))), ("pickle", 2)]})
@@ -365,13 +498,15 @@ def run(ctx):
         "transitions": total.n["bfs_transitions"] + total.n["executions"],
         "traces_validated_against_impl": total.n["executions"] + total.n["bfs_transitions"],
         "exhaustive": True,
-        "bounds": {"history_depth_without_dedup": depth, "bfs": "to fixpoint (depth %d)" % total.n["bfs_max_depth"], "types": [t[0] for t in types], "alphabet_sizes": n_alpha},
+        "bounds": {"cycles": "%d types x %r x %r: structure (identities included) preserved" % (len(types), CYCLE_SHAPES, ["pickle protocols 0-5", "copy.deepcopy"]), "history_depth_without_dedup": depth, "bfs": "to fixpoint (depth %d)" % total.n["bfs_max_depth"], "types": [t[0] for t in types], "alphabet_sizes": n_alpha},
         "rule": "every operation history of length <= depth over the alphabet, replayed on fresh real objects and compared step by step with a plain-dict model; plus BFS to fixpoint with dedup on (type, full contents)",
     }
     return total, cov
 
 
 def replay_case(case):
+    if "cycle" in case:
+        return check_cycle(*case["cycle"])
     hist = [tuple(tuple(tuple(i) if isinstance(i, list) else i for i in x) if isinstance(x, list) else x for x in op) for op in case["history"]]
     problems, _ = run_history(case["type"], hist)
     return problems
